@@ -81,7 +81,14 @@ func (h HTTPIndexHandler) head(indexName string, w http.ResponseWriter) {
 		}
 		return
 	}
-	r.Close()
+	defer r.Close()
+	// Opening a directory succeeds but it's no index, GET fails on it too
+	if f, ok := r.(*os.File); ok {
+		if info, err := f.Stat(); err != nil || info.IsDir() {
+			w.WriteHeader(http.StatusBadRequest)
+			return
+		}
+	}
 	w.WriteHeader(http.StatusOK)
 }
 
